@@ -79,6 +79,13 @@ theorem match_size_is_text_span (F : Fold) (pat text : List Nat) (p : Nat) (ha :
   rw [Prod.ext_iff]
   exact ⟨by rw [h1]; omega, by rw [h2, ho]⟩
 
+/-- **the literal → substring optimisation of `RegexpQuery` keeps an inline `(?i)`**: a literal regexp carrying the
+    FoldCase flag is searched case-insensitively whatever the query's case setting, and a literal without it follows
+    the query's setting. (Before the fix `(?i)foo` became a case-sensitive search for `FOO`.) -/
+theorem regexpQuery_respects_inline_fold (qcase : Bool) :
+    atomCaseSensitive true qcase = false ∧ atomCaseSensitive false qcase = qcase := by
+  cases qcase <;> exact ⟨rfl, rfl⟩
+
 /-! ### Go's tables on the runes of the witnesses: the unrestricted statement is false -/
 
 /-- `unicode.SimpleFold` / `unicode.ToLower` restricted to ASCII, `İ` U+0130, `ſ` U+017F, `K` U+212A (exact on these) -/
